@@ -4,7 +4,7 @@
    the real creation script of `old`, which the case carries as well). *)
 From Coq Require Import List NArith PArith Bool.
 Import ListNotations.
-Require Import Verif.Db.Depth Verif.Db.Script Verif.Db.SqlInterp Verif.Gen.DbTables Verif.Base.Harness.
+Require Import Verif.Db.Depth Verif.Db.Script Verif.Db.SqlInterp Verif.Db.Text Verif.Gen.DbTables Verif.Base.Harness.
 
 Definition pair_eqb (a b:name*name) : bool := key_eqb a b.
 Definition coldef_eqb (a b:name*sqlty) : bool := Pos.eqb (fst a) (fst b) && sqlty_eqb (snd a) (snd b).
@@ -39,12 +39,24 @@ Definition xres_eqb (a:xres) (b:option catalog) : bool :=
 (* the fuel every run of the model gets: tables + 1 rounds are enough on acyclic graphs (Depth theorem) *)
 Definition fuel_of (m:model) : nat := S (length m).
 
+Definition tok_eqb (a b:tok) : bool :=
+  match a, b with
+  | KInd, KInd | KSp, KSp | KNl, KNl | KComma, KComma | KCut, KCut => true
+  | KName x, KName y => Pos.eqb x y
+  | KTy x, KTy y => sqlty_eqb x y
+  | KPk x, KPk y => list_eqb Pos.eqb x y
+  | KFk c t r, KFk c' t' r' => Pos.eqb c c' && Pos.eqb t t' && Pos.eqb r r'
+  | _, _ => false
+  end.
+
 Record c16_case := Case {
   k_old  : model;
   k_new  : option model;
   k_create : list ddl;               (* real creation script of k_old *)
   k_script : option (list ddl);      (* real delta script, when k_new is given *)
-  k_cat  : option catalog            (* Go interpreter: empty catalog, k_create, then k_script; None = rejected *)
+  k_cat  : option catalog;           (* Go interpreter: empty catalog, k_create, then k_script; None = rejected *)
+  k_texts : list (list tok)          (* per statement of k_create ++ k_script: the emitted text, lexed (CREATE TABLE body,
+                                        ADD COLUMN definition, ADD <constraint>; [] for the other statements) *)
 }.
 
 Definition c16_ok (c:c16_case) : bool :=
@@ -63,4 +75,23 @@ Definition c16_ok (c:c16_case) : bool :=
   | _, _ => false
   end &&
   (* 2. the Coq interpreter and the Go interpreter agree on what the real statements do *)
-  xres_eqb (exec empty_cat (k_create c ++ match k_script c with Some s => s | None => [] end)) (k_cat c).
+  xres_eqb (exec empty_cat (k_create c ++ match k_script c with Some s => s | None => [] end)) (k_cat c) &&
+  (* 3. the emitted text is, piece by piece, what the text model assembles for these statements (and no panic) *)
+  list_eqb (option_eqb (list_eqb tok_eqb))
+    (map (stmt_text create_trim addcol_post) (k_create c ++ match k_script c with Some s => s | None => [] end))
+    (map Some (k_texts c)).
+
+(* ---- several applications in one run of ProcessModSysls ---- *)
+Record c16_apps_case := ACase {
+  a_apps : list (option model * option model);   (* per name of --app-names: the application in the old / new module *)
+  a_out  : list (list ddl)                       (* the scripts returned, in order (one per name the new module has) *)
+}.
+Definition script_stmts (a:app_script) : list ddl := match a with ScrDelta l | ScrCreate l => l end.
+Definition apps_fuel (apps:list (option model * option model)) : nat :=
+  fold_left (fun acc e => Nat.max acc (Nat.max (match fst e with Some m => fuel_of m | None => 0 end)
+                                              (match snd e with Some m => fuel_of m | None => 0 end))) apps 1%nat.
+Definition c16_apps_ok (c:c16_apps_case) : bool :=
+  match process_mod depth_stop delta_cfg table_order column_order (apps_fuel (a_apps c)) id_ord (a_apps c) with
+  | Ok l => list_eqb (list_eqb ddl_eqb) (map script_stmts l) (a_out c)
+  | OutOfFuel => false
+  end.
